@@ -26,7 +26,7 @@ REAL = "float64 encoded as Real in the runs marked float=real: rounding, overflo
 specs = {}
 
 specs["C01"] = {"runs": [
-    run("resolver:Harness_C01_resolve", QT, {"K": 3, "M": 1, "L": 1, "tight": 1}, "real", "all", cover=["acyclic-book", "nesting>=2"], note="every book under the default limit 10 and under the tightest limit that admits it (longest chain + 1)"),
+    run("resolver:Harness_C01_resolve", QT, {"K": 3, "M": 1, "L": 1, "tight": 1, "prelude": 1}, "real", "all", cover=["acyclic-book", "nesting>=2"], note="every book under the default limit 10 and under the tightest limit that admits it (longest chain + 1), alone and after a failing resolution of a cyclic book with the same recipe names (sync.Pool modelled as a LIFO free list)"),
     run("resolver:Harness_C01_resolve", QT, {"K": 3, "M": 2, "L": 1}, "real", "all", cover=["acyclic-book", "nesting>=2"], note="9261 books of 3 recipes x <=2 ingredients over {3 recipes, 1 leaf}, 873 acyclic, x 3! visiting orders x 2 entry points"),
     run("resolver:Harness_C01_resolve", QT, {"K": 2, "M": 3, "L": 2}, "real", "all", cover=["acyclic-book"], note="repeated ingredients, two basic elements"),
     run("resolver:Harness_C01_idempotent", QT, {"K": 3, "M": 2, "L": 1}, "fp", "all", note="IEEE-754 encoding: re-resolving through the other entry point is bit-identical"),
@@ -43,10 +43,12 @@ specs["C11"] = {"runs": [
     run("resolver:Harness_C11_depth", QT, {"K": 2, "M": 2, "L": 1, "Nmax": 3}, "fp", "all", cover=["deep-or-cyclic", "chain==N", "chain==N-1"], depth_is_violation=True, note="every graph on 2 recipes x <=2 ingredients, N in 1..3"),
     run("resolver:Harness_C11_depth", QT, {"K": 3, "M": 1, "L": 1, "Nmax": 4}, "fp", "all", cover=["deep-or-cyclic", "chain==N", "chain==N-1"], depth_is_violation=True, note="every chain and cycle of length <= 3, N in 1..4, 3! orders"),
     run("resolver:Harness_C05_resolve_twice", QT, {"K": 3, "M": 1, "L": 1, "Nmax": 4}, "fp", "all", owned=["same-error-status"], note="the outcome is the same under two independently chosen visiting orders"),
+    run("cmd/hranoprovod-cli:Harness_app_maxdepth", QT, {}, owned=["maxdepth:"], cover=["ran"], note="whole application: N = 1..4, 10 from flag, environment and configuration file, nine commands"),
+    run("cmd/hranoprovod-cli:Harness_app_cyclic_book", QT, {}, owned=["cyclic-book-is-error", "terminates"], cover=["ran"], depth_is_violation=True, note="whole application: cyclic books under --maxdepth unset/-1/0/1/2"),
     run("resolver:Harness_C11_depth", T, {"K": 3, "M": 2, "L": 1, "Nmax": 4}, "fp", "all", depth_is_violation=True),
     run("resolver:Harness_C11_depth", T, {"K": 4, "M": 1, "L": 1, "Nmax": 5}, "fp", "all", depth_is_violation=True),
  ], "assumptions": [DATA, "N in 1..5 only; larger limits are argued by the uniformity of the level test, not checked", "a reference to a basic element counts as one reference of the chain (the reading under which the unchanged code is right for N = 1)"],
- "outside_claim": ["N in 6..12", "how N reaches the resolver from flag/env/config (C16)"], "stubs": ["fmt.Errorf: contract stub"]}
+ "outside_claim": ["N in 6..9 and 11, 12"], "stubs": ["fmt.Errorf: contract stub"]}
 
 C04own = ["record-", "entry-", "note-", "no-error-reported", "callback-error-not-returned"]
 q, t = {"n": 3, "m": 2, "a": 3}, {"n": 4, "m": 3, "a": 4, "layouts": 1}
@@ -58,6 +60,7 @@ specs["C04"] = {"runs": [ls(c, Q, q, C04own) for c in range(5)] + [ls(c, T, t, C
     run("parser:Harness_parse_generated", Q, {"R": 2, "E": 2, "n": 2, "m": 2}, owned=C04own, cover=["parsed"]),
     run("parser:Harness_parse_generated", T, {"R": 2, "E": 2, "n": 3, "m": 2, "layouts": 1}, owned=C04own, cover=["parsed"]),
     run("parser:Harness_parse_long_ok", QT, {}, owned=C04own, cover=["long"], max_steps=60000000, note="concrete supplement: a comment, note, entry name or heading of 4094..8193 and 65000 bytes is one line (sizes around the block sizes of buffered readers)"),
+    run("parser:Harness_parse_file_equals_stream", QT, {}, owned=C04own, cover=["parsed"], note="ParseFileCallback on a file = ParseStreamCallback on its content: empty, one byte, two bytes, no final newline, byte order mark (virtual file system)"),
     run("parser:Harness_parse_numbers_concrete", QT, {}, cover=["parsed"], note="concrete supplement: 36 number tokens through the parser vs strconv.ParseFloat, bit for bit (the symbolic runs treat ParseFloat as uninterpreted)"),
  ], "assumptions": [PF + ". The claim is that exactly the number token reaches ParseFloat and its result reaches the entry.",
     "names: first and last byte a letter, digit or non-ASCII byte; inner bytes anything except CR/LF; numbers over [0-9+-.eE] ending in a digit or '.'",
@@ -99,6 +102,12 @@ specs["C05"] = {"runs": [run(CMD + "balance:Harness_pure_function", Q, {"unit": 
     [run(CMD + "balance:Harness_pure_function", T, {"unit": u, "E": 3}, "real", "all", cover=["ran-twice"], note=units[u]) for u in list(range(8)) + [10, 11, 12]] +
     [run(CMD + "balance:Harness_pure_function", T, {"unit": u, "E": 4, "unitamounts": 1, "bookshapes": 2}, "fp", "all", cover=["ran-twice"], note=units[u] + ": IEEE-754 encoding") for u in fpunits] + [
     run("resolver:Harness_C05_resolve_twice", QT, {"K": 3, "M": 1, "L": 1, "Nmax": 4}, "fp", "all", cover=["ran-twice"]),
+    run("cmd/hranoprovod-cli:Harness_app_sequence", QT, {}, "fp", cover=["ran-twice"], note="whole application: a command gives the same output when run first and when run again after another command with other flags (14 variants, all ordered pairs): no state kept between runs"),
+    run("cmd/hranoprovod-cli:Harness_app_twice", QT, {}, "real", "repo", cover=["ran-twice"], note="whole application: 13 commands twice on the same files, every visiting order of the maps the repository's code ranges over (maporder=repo), names differing only in letter case, equal quantities"),
+    run(CMD + "balance:Harness_pure_function", QT, {"unit": 3, "E": 2, "casepair": 1}, "real", "all", cover=["ran-twice"], note=units[3] + ": names that differ only in letter case"),
+    run(CMD + "balance:Harness_pure_function", QT, {"unit": 6, "E": 2, "casepair": 1}, "real", "all", cover=["ran-twice"], note=units[6] + ": names that differ only in letter case"),
+    run(CMD + "balance:Harness_pure_function", QT, {"unit": 7, "E": 2, "casepair": 1}, "real", "all", cover=["ran-twice"], note=units[7] + ": names that differ only in letter case"),
+
     run("resolver:Harness_C05_resolve_twice", T, {"K": 3, "M": 2, "L": 1, "Nmax": 4}, "fp", "all", cover=["ran-twice"]),
  ], "assumptions": [REAL, DATA, "self-composition: the unit is run twice on the same symbolic input in one path; the executor explores every pair of map visiting orders"],
  "outside_claim": ["cross-process effects, environment variables, the clock read inside GetTimeFromString's natural-language fallback"],
@@ -111,6 +120,7 @@ specs["C06"] = {"runs": [
     run(CMD + "summary:Harness_summary_day", QT, {}, cover=["ran"], note="concrete supplement: the summary command's real Action (real time.Date/Year/Month/Day) for 6 dates around month/year ends x {today, yesterday, explicit} x time.Local in {UTC, -5h, +13h, -10h}: exactly the headings of that calendar date"),
     run("cmd/hranoprovod-cli:Harness_app_period", Q, {"R": 2}, cover=["ran"], note="whole application: 10 period-aware command variants x period given globally / on the sub-command / on both (sub-command wins) x {begin, end} present or not x symbolic dates: output = output on the log with the other days deleted and no period"),
     run("cmd/hranoprovod-cli:Harness_app_period", T, {"R": 3}, cover=["ran"]),
+    run("cmd/hranoprovod-cli:Harness_app_stats_today", QT, {}, owned=["today:", "stats-ok"], cover=["ran"], note="--today independent of the process time zone (explored: UTC, UTC-5, UTC+13)"),
     run("cmd/hranoprovod-cli:Harness_app_keywords", QT, {}, cover=["ran"], note="whole application: --begin/--end = today, yesterday, last7, last30 (globally or on the sub-command) against --today minus 0/1/7/30 days, symbolic dates"),
     run(CMD + "options:Harness_today_and_period", QT, {}, cover=["loaded"], note="real urfave/cli Context and flag.FlagSet code: sub-command period overrides the global one; keywords resolve against --today"),
  ], "assumptions": ["dates within a 40-day window for the walk (any order, repeats allowed)"],
@@ -240,6 +250,8 @@ specs["C16"] = {"runs": [
     run(CMD + "options:Harness_settings_precedence", QT, {}, owned=prec_owned, cover=["loaded"], note="real urfave/cli Context + flag.FlagSet; 4 config-file situations x 2^4 flags x 2^4 config entries"),
     run(CMD + "register:Harness_no_database", QT, {}, cover=["ran"]),
     run("cmd/hranoprovod-cli:Harness_app_settings", Q, {"full": 0}, owned=prec_owned + ["print-layout=parse-layout"], cover=["loaded"], note="whole application GetApp().Run(args): the real flag definitions of root.go (names, defaults, EnvVars), urfave/cli flag and environment handling, options.Load; flag x env x config entry for one focus setting (the other settings jointly unset / from flags / from env / from config) x 7 configuration-file situations (absent, default location $HOME/.hranoprovod/config, --config, HR_CONFIG, either naming a missing file, --config over HR_CONFIG) x --today"),
+    run("cmd/hranoprovod-cli:Harness_app_maxdepth", QT, {}, owned=["maxdepth:"], cover=["ran"], note="whole application: the resolve depth from flag / HR_MAXDEPTH / configuration file reaches each of nine resolving commands (book nested 3 deep: limits 1-3 rejected, 4+ resolve)"),
+    run("cmd/hranoprovod-cli:Harness_app_stats_today", QT, {}, owned=["today:", "stats-ok"], cover=["ran"], note="whole application: --today is shown by stats as given, in every explored time zone"),
     run("cmd/hranoprovod-cli:Harness_app_settings", T, {"full": 1}, owned=prec_owned + ["print-layout=parse-layout"], cover=["loaded"], max_paths=400000, note="the full product {flag} x {env} x {config entry} over the four settings"),
  ], "assumptions": ["process environment: os.LookupEnv/syscall.Getenv read a virtual environment set by the harness; os/user.Current returns a user whose home directory is a virtual directory", "gopkg.in/gcfg.v1 ReadInto: contract stub interpreting the documented INI subset and assigning the [Global]/[Resolver] fields", "os.Stat/os.Open: virtual file system (exists / does not exist)"],
  "outside_claim": ["gcfg's INI parsing", "how the C library / passwd database resolves the home directory", "--today parsing (C06)"],
